@@ -28,7 +28,11 @@ func main() {
 	case "check":
 		os.Exit(cmdCheck(os.Args[2:]))
 	case "ssa":
-		e := loadEngine("/repo")
+		repo := "/repo"
+		if r := os.Getenv("WV_REPO"); r != "" {
+			repo = r
+		}
+		e := loadEngine(repo)
 		for _, n := range os.Args[2:] {
 			if fn := e.findFunction(n); fn != nil {
 				fn.WriteTo(os.Stdout)
